@@ -2,7 +2,8 @@
    This file holds only pinned statements, `exact` proofs and Print Assumptions. *)
 From PV Require Import Base.MachineInt Model.Znx Model.Limbs Model.C08Oracle Proofs.ZnxDigit Proofs.C08Steps
   Proofs.C08Chain Proofs.C08Loops Proofs.C08Value Proofs.C08Normalize Proofs.C08Shift Proofs.C08Rsh
-  Proofs.C08ShiftValue Proofs.C08RshValue Proofs.C08CoeffOk Proofs.C08Cross.
+  Proofs.C08ShiftValue Proofs.C08RshValue Proofs.C08CoeffOk Proofs.C08Cross Proofs.C08CrossTheorem
+  Proofs.C08CoeffOkCross.
 Open Scope Z_scope.
 
 Theorem C08_digit_spec : forall w b x : Z, 1 <= b <= w -> get_digit w b x = wrap b x.
@@ -394,3 +395,45 @@ Print Assumptions C08_normalize_cross_total.
 Example C08_normalize_cross_total_ex :
   normalize_cross 64 5 12 (-7) [2 ^ 62; -5; 123456789012] [0; 0; 0; 0] <> None.
 Proof. apply C08_normalize_cross_total; lia. Qed.
+
+(* ---------------- cross-radix normalisation with a non-negative offset: the value theorem ---------------- *)
+(* input radix ab, output radix rb (any pair in 1..62, equal or not), offset >= 0, un-normalised input limbs:
+   the output represents a * 2^off on the torus within one unit of its last limb, exactly when it fits.
+   (The output limbs of this routine are not all balanced digits; the property does not ask for it.) *)
+Theorem C08_normalize_cross_value : forall rb ab : Z, 1 <= rb <= 62 -> 1 <= ab <= 62 ->
+  forall (off : Z) (a r0 : list Z), 0 <= off -> hr62 a ->
+  exists out, normalize_cross 64 rb ab off a r0 = Some out /\ length out = length r0 /\
+    forall P, zn (length r0) * rb + zn (length a) * ab + off <= P ->
+      let D := tor_abs P (val_scaled P rb out - val_scaled (P + off) ab a) in
+      D <= 2 ^ (P - zn (length r0) * rb) /\ (zn (length a) * ab - off <= zn (length r0) * rb -> D = 0).
+Proof. exact normalize_cross_value. Qed.
+Print Assumptions C08_normalize_cross_value.
+
+Example C08_normalize_cross_value_ex :
+  exists out, normalize_cross 64 5 12 7 [2 ^ 62; -5; 123456789012] [0; 0; 0; 0] = Some out /\
+    tor_abs 80 (val_scaled 80 5 out - val_scaled (80 + 7) 12 [2 ^ 62; -5; 123456789012]) <= 2 ^ (80 - 4 * 5).
+Proof.
+  destruct (C08_normalize_cross_value 5 12 ltac:(lia) ltac:(lia) 7 [2 ^ 62; -5; 123456789012] [0; 0; 0; 0])
+    as (out & E & _ & HV).
+  - lia.
+  - repeat constructor; cbn; lia.
+  - exists out. split; [exact E|]. apply (HV 80). cbn. lia.
+Qed.
+
+(* the oracle on the dispatcher vec_znx_normalize (record code 8101): never 0 for offset >= 0 or equal radices *)
+Theorem C08_coeff_ok_normalize : forall (rb ab off : Z) (a r0 : list Z), 1 <= rb <= 62 -> 1 <= ab <= 62 ->
+  0 <= off \/ rb = ab ->
+  exists out, normalize 64 rb ab off a r0 = Some out /\ coeff_ok rb ab off 0 1 (rb =? ab) a r0 out <> 0.
+Proof. exact coeff_ok_normalize. Qed.
+Print Assumptions C08_coeff_ok_normalize.
+
+(* what is not proved: the cross-radix routine with a negative offset (extra paths: partial fill of the top
+   res limb from the a-carry, gapbits_phase, top_phase).  No counterexample on the current model: exhaustive
+   vm_compute over radices 1..4 (rb <> ab), |a| <= 2, |res| <= 4, limbs in -3..3, offsets -1..-9 found none. *)
+Definition normalize_cross_value_full : Prop :=
+  forall rb ab : Z, 1 <= rb <= 62 -> 1 <= ab <= 62 ->
+  forall (off : Z) (a r0 : list Z), hr62 a ->
+  exists out, normalize_cross 64 rb ab off a r0 = Some out /\ length out = length r0 /\
+    forall P, zn (length r0) * rb + zn (length a) * ab + Z.abs off <= P ->
+      let D := tor_abs P (val_scaled P rb out - val_scaled (P + off) ab a) in
+      D <= 2 ^ (P - zn (length r0) * rb) /\ (zn (length a) * ab - off <= zn (length r0) * rb -> D = 0).
